@@ -36,6 +36,7 @@ type valuelitFam struct{}
 func init() { core.Register("valuelit", valuelitFam{}) }
 
 type vlCase struct {
+	Seed  uint64 `json:"seed"` // shape "random": the value is grown from this seed
 	Shape string `json:"shape"`
 	Leaf  struct {
 		T string `json:"t"`
@@ -132,7 +133,104 @@ func ptrTo(v reflect.Value) reflect.Value {
 	return p
 }
 
+var vlLeafClasses = map[string][]string{
+	"bool": {"true", "false"}, "int": {"zero", "one", "neg", "min", "max"}, "int64": {"zero", "one", "neg", "min", "max"}, "int8": {"zero", "one", "neg", "min", "max"},
+	"uint8": {"zero", "one", "max"}, "uint64": {"zero", "one", "max"}, "rune": {"zero", "printable", "quote", "nonprintable", "maxrune", "neg"},
+	"float64": {"zero", "negzero", "subnormal", "max", "tenth", "big", "negtenth"}, "float32": {"zero", "negzero", "subnormal", "max", "tenth", "third"},
+	"string": {"empty", "quotes", "newline", "backquote", "nonutf8", "unicode", "long"}, "AI": {"zero", "one", "max"}, "AS": {"empty", "quotes"}, "AB": {"true", "false"},
+	"AF": {"tenth", "zero"}, "A": {"zero", "set"}, "B": {"zero", "set"},
+}
+
+// randomValue grows a nested value (slices, arrays, maps with several key types, pointers to scalars and structs) over the leaf classes.
+func randomValue(rng *rand.Rand, depth int) reflect.Value {
+	leafTypes := core.SortedKeys(vlLeafClasses)
+	leaf := func(t string) reflect.Value {
+		cl := vlLeafClasses[t]
+		v, _ := leafValue(t, cl[rng.IntN(len(cl))])
+		return v
+	}
+	var typ func(d int) (reflect.Type, func() reflect.Value)
+	typ = func(d int) (reflect.Type, func() reflect.Value) {
+		if d <= 0 || rng.IntN(4) == 0 {
+			t := leafTypes[rng.IntN(len(leafTypes))]
+			return leaf(t).Type(), func() reflect.Value { return leaf(t) }
+		}
+		switch rng.IntN(5) {
+		case 0: // slice
+			et, mk := typ(d - 1)
+			return reflect.SliceOf(et), func() reflect.Value {
+				if rng.IntN(6) == 0 {
+					return reflect.Zero(reflect.SliceOf(et))
+				}
+				s := reflect.MakeSlice(reflect.SliceOf(et), 0, 3)
+				for i, n := 0, rng.IntN(4); i < n; i++ {
+					s = reflect.Append(s, mk())
+				}
+				return s
+			}
+		case 1: // array
+			et, mk := typ(d - 1)
+			return reflect.ArrayOf(2, et), func() reflect.Value {
+				a := reflect.New(reflect.ArrayOf(2, et)).Elem()
+				a.Index(0).Set(mk())
+				if rng.IntN(2) == 0 {
+					a.Index(1).Set(mk())
+				}
+				return a
+			}
+		case 2: // map
+			kt := []string{"string", "int", "AI", "bool", "AS", "uint8", "rune"}[rng.IntN(7)]
+			et, mk := typ(d - 1)
+			mt := reflect.MapOf(leaf(kt).Type(), et)
+			return mt, func() reflect.Value {
+				if rng.IntN(6) == 0 {
+					return reflect.Zero(mt)
+				}
+				m := reflect.MakeMap(mt)
+				for i, n := 0, rng.IntN(4); i < n; i++ {
+					m.SetMapIndex(leaf(kt), mk())
+				}
+				return m
+			}
+		case 3: // pointer to a scalar or a struct (single level)
+			t := leafTypes[rng.IntN(len(leafTypes))]
+			return reflect.PointerTo(leaf(t).Type()), func() reflect.Value {
+				if rng.IntN(5) == 0 {
+					return reflect.Zero(reflect.PointerTo(leaf(t).Type()))
+				}
+				return ptrTo(leaf(t))
+			}
+		default: // a struct with container fields
+			return reflect.TypeOf(fixt.Outer{}), func() reflect.Value {
+				o := fixt.Outer{Name: "r"}
+				if rng.IntN(2) == 0 {
+					o.List = []int{1, -2}
+				}
+				if rng.IntN(2) == 0 {
+					o.M = map[string]int{"z": 26, "a": 1}
+				}
+				if rng.IntN(2) == 0 {
+					s := "ptr"
+					o.PS = &s
+				}
+				if rng.IntN(2) == 0 {
+					o.MS = map[string]fixt.Inner{"k": {}, "j": {X: rng.IntN(5)}}
+				}
+				if rng.IntN(2) == 0 {
+					o.PIn = &fixt.Inner{}
+				}
+				return reflect.ValueOf(o)
+			}
+		}
+	}
+	_, mk := typ(depth)
+	return mk()
+}
+
 func buildValue(vc vlCase) (reflect.Value, error) {
+	if vc.Shape == "random" {
+		return randomValue(rand.New(rand.NewPCG(vc.Seed, 99)), 3), nil
+	}
 	L, err := leafValue(vc.Leaf.T, vc.Leaf.C)
 	if err != nil {
 		return reflect.Value{}, err
@@ -298,8 +396,8 @@ func vlCheck(u *gengotypes.Universe, src []byte, name string) (t types.Type, isC
 		if gd, ok := d.(*ast.GenDecl); ok {
 			for _, sp := range gd.Specs {
 				if vs, ok := sp.(*ast.ValueSpec); ok && len(vs.Names) == 1 && vs.Names[0].Name == name && len(vs.Values) == 1 {
-					if tv, ok := info.Types[vs.Values[0]]; ok && tv.Value != nil {
-						isConst = true
+					if tv, ok := info.Types[vs.Values[0]]; ok && (tv.Value != nil || tv.IsNil()) {
+						isConst = true // an untyped constant, or the untyped nil: assignable to the value's type without having a type of its own
 					}
 				}
 			}
@@ -436,4 +534,9 @@ func main() { _ = json.NewEncoder(os.Stdout).Encode(results) }
 	return nil
 }
 
-func (valuelitFam) Rand(n int, rng *rand.Rand, emit func(cas any)) error { return nil }
+func (valuelitFam) Rand(n int, rng *rand.Rand, emit func(cas any)) error {
+	for i := 0; i < n; i++ {
+		emit(map[string]any{"shape": "random", "seed": rng.Uint64() >> 12, "leaf": map[string]string{"t": "int", "c": "zero"}})
+	}
+	return nil
+}
